@@ -151,4 +151,71 @@ PROPS = {
             {"name": "gate", "run": "TestWriteGate", "kind": "rapid", "checks": {Q: 2400, T: 80000}, "shards": {Q: 4, T: 16}, "steps": {Q: 20, T: 40}},
         ],
     },
+    "C10": {
+        "pkg": "c10",
+        "rule": ("rapid state machine over 3 peers with identical numbering: subscriptions and bindings by the peers, subscriptions/bindings of local "
+                 "client features to the peers' server features (client-side bookkeeping), writes left pending on a feature whose approval callback "
+                 "never answers (time-out 30 ms), data changes; then RemoveRemoteDeviceConnection - also issued from inside another peer's writer while "
+                 "that peer's message is processed - or an entity-removed notification. Before/after snapshots per peer: all and only the removed "
+                 "device's (entity's) registry entries and bookkeeping are gone, one remove event per entry plus one device/entity event, none for other "
+                 "devices, device no longer resolvable; every other peer's snapshot is identical and a read by it is answered; the removed "
+                 "connection's writer stays silent until after the approval time-out and further data changes. Non-trivial: >=2 peers hold state on the "
+                 "same local feature at a removal. Distinct by operation sequence."),
+        "assumptions": ["real time is used only to let the 30 ms approval time-out expire (sleep 55 ms); no timing is asserted",
+                        "no message is injected on a removed connection"],
+        "runs": [
+            {"name": "teardown", "run": "TestTeardown", "kind": "rapid", "checks": {Q: 1600, T: 40000}, "shards": {Q: 8, T: 16}, "steps": {Q: 20, T: 40}},
+        ],
+    },
+    "C14": {
+        "pkg": "c14",
+        "rule": ("rapid state machine over 2-3 ordinary local features and 2 peers: registrations of response callbacks from four distinct literal sites "
+                 "(several per counter, several counters, duplicates), result callbacks, deliveries of replies and results with matching / other "
+                 "feature's / unknown / repeated references, accepted and rejected replies, zero and non-zero error numbers, registrations from a second "
+                 "goroutine concurrent with deliveries; reference model (feature, counter) -> callbacks consumed on the first accepted delivery; the "
+                 "invocation log is compared after the goroutine barrier (exactly once, right reference, right remote feature object, payload by unique "
+                 "serial). Non-trivial: an accepted delivery that is repeated, reaches the wrong feature, or falls in a concurrent window. Distinct by "
+                 "abstract history hash."),
+        "assumptions": ["callback identity is the code pointer: distinct function literals model distinct callbacks",
+                        "replies and results always carry a msgCounterReference (without one PrintMessageOverview panics - C05's subject)"],
+        "runs": [
+            {"name": "callbacks", "run": "TestCallbacks", "kind": "rapid", "checks": {Q: 1600, T: 40000}, "shards": {Q: 4, T: 16}, "steps": 30},
+            {"name": "sites", "run": "TestSites", "kind": "plain"},
+            {"name": "scenario", "run": "TestScenario", "kind": "plain"},
+        ],
+    },
+    "C15": {
+        "pkg": "c15",
+        "rule": ("rapid-generated plans on spine.Events: subscribe / subscribe-again / unsubscribe of 1-4 application handlers, publications of uniquely "
+                 "tagged payloads from 1-4 goroutines (sequential and concurrent phases), handlers that (un)subscribe themselves or others, publish "
+                 "nested events or call into the stack; every operation is logged with start/end stamps and judged by the interval oracle (must / "
+                 "must-not / either, never twice); watchdog on every Publish. Core-first: with a connected peer, the core handler's datagrams are on "
+                 "the writer before an application handler starts handling the device-add event and when the injecting call returns. Non-trivial: a "
+                 "must-deliver pair exists and an (un)subscription lies between two publications or re-entrancy was executed. Distinct by plan hash."),
+        "assumptions": ["a Publish that does not return within 10 s with goroutines parked in spine-go locks is a deadlock; a bare time-out is inconclusive"],
+        "runs": [
+            {"name": "bus", "run": "TestBusHistories", "kind": "rapid", "checks": {Q: 2000, T: 50000}, "shards": {Q: 4, T: 16}},
+            {"name": "corefirst", "run": "TestCoreFirst", "kind": "rapid", "checks": {Q: 1200, T: 30000}, "shards": {Q: 4, T: 16}},
+            {"name": "oracle", "run": "TestOracle", "kind": "plain"},
+        ],
+    },
+    "C20": {
+        "pkg": "c20",
+        "rule": ("rapid state machine over 4 local entity slots (incl. nested addresses) x 3 actors x 4 use-case names: add (new / re-add with other "
+                 "version, sub-revision, scenarios, availability), remove (known/unknown), set-availability, remove-all, has, RemoveEntity and re-add of "
+                 "an entity, against a reference map; after every step HasUseCaseSupport for every triple of the domain, DataCopy and the reply to a "
+                 "peer's read must equal the model and other entities' entries must be untouched. Concurrency: free-running goroutines each working on "
+                 "its own entity (drawn workloads x 20 rounds, 16 operation pairs x 100 rounds) and exhaustive enumeration of all interleavings of the "
+                 "read-modify-write cycles over the yield point between copy and store (16 pairs + one 3-thread workload). Non-trivial: a removing or "
+                 "overwriting operation while >=2 entities hold use cases; >=2 goroutines with registry-changing operations; schedule with >=2 threads "
+                 "reaching the window. Distinct by abstract operation sequence / workload / schedule."),
+        "assumptions": ["operations on different entities commute, so the expected final registry of a concurrent workload is well defined",
+                        "concurrent tests need GOMAXPROCS >= 2"],
+        "runs": [
+            {"name": "registry", "run": "TestUseCaseRegistry", "kind": "rapid", "checks": {Q: 1600, T: 50000}, "shards": {Q: 4, T: 16}, "steps": {Q: 30, T: 40}},
+            {"name": "concurrent", "run": "TestUseCaseConcurrent", "kind": "rapid", "checks": {Q: 60, T: 600}, "shards": {Q: 1, T: 2}},
+            {"name": "pairs", "run": "TestUseCaseConcurrentPairs", "kind": "plain", "env": {"VERIF_C20_PAIR_ROUNDS": {Q: 40, T: 400}}},
+            {"name": "interleavings", "run": "TestUseCaseInterleavings", "kind": "plain"},
+        ],
+    },
 }
